@@ -267,6 +267,35 @@ def gen_chain(g, filters=0.0):
         if filters and r.random() < filters:
             conts = [v for v in cur if v[0] in 'ao' and v[1]]
             kids = chain_children(r.choice(conts)) if conts else []
+            if r.random() < 0.5:
+                # a comparison with a number literal: the inner path must be single-valued (no wildcard, no `..`)
+                for _t in range(6):
+                    itext, ispec = gen_inner(r, r.choice(kids) if kids else None)
+                    if all(st[0] not in (2, 3, 4) for st in ispec):
+                        break
+                else:
+                    itext, ispec = '', []
+                nums = [x[1] for k0 in kids for x in inner_reach(ispec, [k0]) if x[0] == 'n' and x[1] == x[1] and abs(x[1]) < 1e15]
+                base = r.choice(nums) if nums and r.random() < 0.8 else float(r.randint(-3, 9))
+                val = base + r.choice([0, 0, 0, 1, -1, 0.5])
+                lit = r.choice(['%g' % val, repr(val), ('%d' % val if val == int(val) else repr(val)), ('+' if val >= 0 else '') + repr(val)])
+                try:
+                    fv = float(lit)
+                except ValueError:
+                    lit, fv = '1', 1.0
+                oc = r.randrange(6)
+                optext = ['==', '!=', '<', '<=', '>', '>='][oc]
+                text += '[?(@' + itext + optext + lit + ')]'
+                spec.append((8, ispec, oc, [ord(ch) for ch in lit]))
+
+                def keep(x):
+                    got = inner_reach(ispec, [x])
+                    if not got or got[0][0] != 'n':
+                        return oc == 1
+                    a = got[0][1]
+                    return [a == fv, a != fv, a < fv, a <= fv, a > fv, a >= fv][oc]
+                cur = [x for v in cur for x in chain_children(v) if keep(x)]
+                continue
             itext, ispec = gen_inner(r, r.choice(kids) if kids else None)
             text += '[?(@' + itext + ')]'
             spec.append((7, ispec))
@@ -401,7 +430,7 @@ class C01(EvalProp):
                 doc, text, spec, cur = gen_chain(g, filters=fl)
                 if cur or r.random() < 0.25:
                     break
-            has_filter = any(st[0] == 7 for st in spec)      # C01_filter_retrieval: the text is Coq's fchain_path
+            has_filter = any(st[0] in (7, 8) for st in spec)      # C01_filter_retrieval: the text is Coq's fchain_path
             nodollar = not has_filter and spec[0][0] != 4 and r.random() < 0.25
             if nodollar:
                 # C18_dollar_optional: the same path without its leading $ (a first dot name loses its dot, .* becomes *)
@@ -1662,10 +1691,93 @@ class C09(Prop):
             'Non-trivial: the related filters select different non-empty sets on a container of >= 2 members')
     trusted = TRUSTED_EVAL
 
+    def from_text(self, ctx, res, g, budget_scale):
+        """C01_filter_retrieval with comparison steps: `$[?(@ inner OP number)]` (text = Coq fchain_path, confirmed by the
+        driver) over containers whose members offer float64 numbers, json.Number numbers, other types or nothing at inner;
+        expected: the members whose number stands in the relation (for != : all the others), computed from the document"""
+        r = g.r
+        cases, want = [], {}
+        for i in range(ctx.n(400, 4000) * budget_scale):
+            names = [b'a', b'b', b'k']
+            kb = r.choice(names)
+            inner_kind = r.choice(['name', 'name', 'self', 'idx', 'name2'])
+            pool = [0.0, 1.0, 2.0, 2.5, -1.0, 10.0, 100.0, 0.5, 3.0]
+
+            def numv():
+                x = r.choice(pool)
+                return ('n', x) if r.random() < 0.6 else ('j', r.choice(['%g' % x, repr(x), '%.2f' % x]))
+
+            def leaf():
+                k = r.random()
+                return numv() if k < 0.7 else r.choice([('s', b'2'), ('z',), ('b', True), ('a', [('n', 2.0)]), ('o', [])])
+
+            def member():
+                if inner_kind == 'self':
+                    return leaf()
+                if inner_kind == 'idx':
+                    return ('a', [leaf() for _ in range(r.randint(0, 3))])
+                if inner_kind == 'name2':
+                    return ('o', [(kb, ('o', [(b'c', leaf())] if r.random() < 0.8 else []))]) if r.random() < 0.85 else leaf()
+                ms = [(kk, leaf()) for kk in names if r.random() < 0.6]
+                return ('o', ms) if r.random() < 0.9 else leaf()
+            ms = [member() for _ in range(r.randint(0, 6))]
+            body = ('a', ms) if r.random() < 0.6 else ('o', [(b'm%d' % j, v) for j, v in enumerate(ms)])
+            if inner_kind == 'self':
+                itext, ispec = '', []
+            elif inner_kind == 'idx':
+                n_ = r.randint(0, 2)
+                itext, ispec = '[%d]' % n_, [(1, [ord(ch) for ch in str(n_)])]
+            elif inner_kind == 'name2':
+                itext, ispec = '.%s.c' % kb.decode(), [(0, [ord(ch) for ch in kb.decode()]), (0, [99])]
+            else:
+                style = r.choice("'\".")
+                itext = ('.' + kb.decode()) if style == '.' else '[%s%s%s]' % (style, kb.decode(), style)
+                ispec = [(0 if style == '.' else ord(style), [ord(ch) for ch in kb.decode()])]
+            fv = r.choice(pool) + r.choice([0, 0, 0.5, -0.5])
+            lit = r.choice([repr(fv), '%g' % fv, ('+' if fv >= 0 else '') + repr(fv), '%de0' % fv if fv == int(fv) else repr(fv)])
+            fv = float(lit)
+            oc = r.randrange(6)
+            text = '$[?(@' + itext + ['==', '!=', '<', '<=', '>', '>='][oc] + lit + ')]'
+            kept = []
+            for x in chain_children(body):
+                got = inner_reach(ispec, [x])
+                if got and got[0][0] in 'nj':
+                    a = got[0][1] if got[0][0] == 'n' else float(got[0][1])
+                    ok_ = [a == fv, a != fv, a < fv, a <= fv, a > fv, a >= fv][oc]
+                else:
+                    ok_ = oc == 1
+                if ok_:
+                    kept.append(x)
+            c = Case('ct%d' % i, text.encode('utf-8'), [body], meta={'family': 'coq-comparison-filter', 'nsteps': 1})
+            c.keyc = [(8, ispec, oc, [ord(ch) for ch in lit])]
+            want[c.id] = 'ok:[' + ','.join(core.doc_render(v) for v in kept) + ']' if kept else 'fail'
+            cases.append(c)
+        go, mo = both_sides(cases)
+        for c, g_, m in zip(cases, go, mo):
+            res.evaluations += 1
+            hp = harness_problem(g_) or harness_problem(m)
+            if hp:
+                res.violation('broken-correspondence', 'harness:' + hp[:60], hp, c)
+                continue
+            if m.get('KP') != '1':
+                res.violation('broken-correspondence', 'harness:fchain_path', 'the path sent is not Coq fchain_path of its steps', c)
+                continue
+            r0 = g_.get('R0', '')
+            got = r0 if r0.startswith('ok:') else ('fail' if cls_of(r0) in ('mne', 'tum') else r0)
+            if got != want[c.id] or g_.get('R0') != m.get('R0'):
+                res.disagreements_checked += 1
+                res.violation('concrete', sig_of(c, 'comparison-from-text'),
+                              '%r keeps the members whose number stands in the relation to the literal' % (c.path,), c,
+                              expected=want[c.id], observed={'impl': g_.get('R0'), 'model': m.get('R0')})
+            if want[c.id] != 'fail' and len(c.docs[0][1]) >= 2:
+                res.nontrivial.add((c.path, core.doc_render(c.docs[0])))
+            res.dist['text:' + cls_of(r0 or 'P')] += 1
+
     def run(self, ctx, res, budget_scale=1, seed_offset=0):
         g = gens.G(ctx.seed * 23 + 9 + seed_offset)
         r = g.r
         n = ctx.n(2500, 50000) * budget_scale
+        self.from_text(ctx, res, gens.G(ctx.seed * 29 + 99 + seed_offset), budget_scale)
         sp = gens.Spelling()
         fams = []
         for i in range(n):
